@@ -250,10 +250,10 @@ Fixpoint rest_after (rest data : list R) (k : nat) : list R :=
     end
   end.
 
-Lemma draw_seq_linear k : forall rest data rp orc,
+Lemma draw_seq_linear nm k : forall rest data rp orc,
   data <> [] ->
-  draw_seq k (mkIter R (mkDs data Linear rp) true rest) orc =
-  Ok (cyc_from rest data k, mkIter R (mkDs data Linear rp) true (rest_after rest data k), orc).
+  draw_seq k (mkIter R (mkDs data Linear rp nm) true rest) orc =
+  Ok (cyc_from rest data k, mkIter R (mkDs data Linear rp nm) true (rest_after rest data k), orc).
 Proof.
   induction k as [|k IH]; intros rest data rp orc Hne; cbn [Datasets.draw_seq cyc_from rest_after].
   - reflexivity.
@@ -306,18 +306,18 @@ Qed.
 
 (* C17, iterate: the k-th draw (0-based, any k) of a freshly opened repeating linear iterator
    is record k mod n, for all draws of every prefix *)
-Theorem iterate_mod_n (data : list R) (orc : list Z) (k : nat) :
+Theorem iterate_mod_n (data : list R) (orc : list Z) (k : nat) (nm : option nat) :
   data <> [] ->
   exists it l it',
-    new_iter (mkDs data Linear true) orc = Ok (it, orc) /\
+    new_iter (mkDs data Linear true nm) orc = Ok (it, orc) /\
     draw_seq k it orc = Ok (l, it', orc) /\
     length l = k /\
     forall j, (j < k)%nat -> nth_error l j = nth_error data (j mod length data).
 Proof.
   intros Hne.
-  exists (mkIter R (mkDs data Linear true) true data), (cyc_from data data k),
-         (mkIter R (mkDs data Linear true) true (rest_after data data k)).
-  pose proof (draw_seq_linear k data data true orc Hne) as Hd.
+  exists (mkIter R (mkDs data Linear true nm) true data), (cyc_from data data k),
+         (mkIter R (mkDs data Linear true nm) true (rest_after data data k)).
+  pose proof (draw_seq_linear nm k data data true orc Hne) as Hd.
   split; [reflexivity|]. split; [exact Hd|]. split.
   - eapply draw_seq_length. exact Hd.
   - intros j Hj.
@@ -485,10 +485,10 @@ Theorem empty_dataset_error (d : dsref) orc :
   d_data R d = [] ->
   exists it, new_iter d orc = Ok (it, orc) /\ exists e, is_dge e /\ field_draw it orc = Err e.
 Proof.
-  intros Hd. destruct d as [data m rp]. cbn [d_data] in Hd. subst data.
-  assert (Hs : forall o, start (mkDs [] m rp) o = Ok ([], o)).
+  intros Hd. destruct d as [data m rp nm]. cbn [d_data] in Hd. subst data.
+  assert (Hs : forall o, start (mkDs [] m rp nm) o = Ok ([], o)).
   { intros o. unfold Datasets.start. destruct m; reflexivity. }
-  exists (mkIter R (mkDs [] m rp) rp []). split.
+  exists (mkIter R (mkDs [] m rp nm) rp []). split.
   - unfold Datasets.new_iter. rewrite Hs. reflexivity.
   - eexists. split; [|unfold Datasets.field_draw, Datasets.iter_next; cbn [i_rest i_repeat i_ds];
                        destruct rp; [rewrite Hs|]; cbn [bind]; reflexivity].
@@ -570,7 +570,7 @@ Proof.
   destruct (new_iter_spec _ _ _ _ Hnew) as (Hds & Hr & Hst).
   pose proof (start_perm _ _ _ _ Hst) as Hperm.
   splits.
-  - cbn [Datasets.gen_rows]. cbn [s_orc s_sites s_out]. rewrite Hnew.
+  - cbn [Datasets.gen_rows]. unfold Datasets.memo_get. cbn [s_orc s_sites s_out]. rewrite Hnew. cbn [bind].
     apply each_loop_emit. intros x i s Hx.
     cbn [Datasets.draw_sites Datasets.gen_list].
     rewrite (Hp x) by (eapply Permutation_in; eassumption). reflexivity.
@@ -617,12 +617,12 @@ Proof.
   intros Hlp Hp. unfold Datasets.run_update, Datasets.build_update.
   assert (Hb : match lp with
                | LCount _ => Err (DGE "Update templates should have no 'count'")
-               | _ => Ok (TCons (Tmpl tid (LForEach (mkDs input Linear false)) [] (own ++ passthrough) TNil TNil) TNil)
-               end = Ok (TCons (Tmpl tid (LForEach (mkDs input Linear false)) [] (own ++ passthrough) TNil TNil) TNil)).
+               | _ => Ok (TCons (Tmpl tid (LForEach (mkDs input Linear false None)) [] (own ++ passthrough) TNil TNil) TNil)
+               end = Ok (TCons (Tmpl tid (LForEach (mkDs input Linear false None)) [] (own ++ passthrough) TNil TNil) TNil)).
   { destruct lp; try reflexivity. exfalso. eapply Hlp; reflexivity. }
   rewrite Hb. unfold Datasets.run_recipe. rewrite iterations_S, gen_list_cons.
-  destruct (for_each_exact tid (mkDs input Linear false) (own ++ passthrough) p false [] orc []
-              (mkIter R (mkDs input Linear false) false input) orc eq_refl Hp) as (Hg & _ & _).
+  destruct (for_each_exact tid (mkDs input Linear false None) (own ++ passthrough) p false [] orc []
+              (mkIter R (mkDs input Linear false None) false input) orc eq_refl Hp) as (Hg & _ & _).
   rewrite Hg. rewrite gen_list_nil. cbn [Datasets.iterations i_rest app s_out]. reflexivity.
 Qed.
 
@@ -639,8 +639,8 @@ Proof. reflexivity. Qed.
    ForEachVariableDefinition.evaluate (KNOWN_FINDINGS, fixed: Dataset.iterate/shuffle below a
    for_each) every field inside / below a for_each template was evaluated this way; now only the
    for_each expression itself is, and gen_rows never passes recalc = true down from run_recipe. *)
-Lemma site_draw_recalc_linear sid (x : R) (r : list R) rp (s : st) :
-  site_draw R C true sid (mkDs (x :: r) Linear rp) s = ROk R C R x s.
+Lemma site_draw_recalc_linear sid (x : R) (r : list R) rp nm (s : st) :
+  site_draw R C true sid (mkDs (x :: r) Linear rp nm) s = ROk R C R x s.
 Proof.
   destruct s as [sites orc out].
   unfold Datasets.site_draw, Datasets.new_iter, Datasets.start, Datasets.field_draw, Datasets.iter_next.
@@ -678,7 +678,24 @@ Lemma gen_rows_eq tid lp sites pass nested friends rc (s : st) :
                 (mkSt R C (s_sites R C s) orc1 (s_out R C s))
     end
   end.
-Proof. destruct lp; reflexivity. Qed.
+Proof.
+  destruct lp as [|m|d]; try reflexivity.
+  cbn [Datasets.gen_rows]. unfold Datasets.memo_get.
+  destruct (new_iter d (s_orc R C s)) as [[it o]|e]; reflexivity.
+Qed.
+
+(* for_each and `name`: the for_each expression is evaluated under recalculate_every_time, so the
+   keyword plays no role — the loop over a named dataset is, row for row and state for state, the
+   loop over the same dataset without the name (every evaluation: every iteration, every parent
+   row, any context, any remembered state under that name) *)
+Lemma for_each_name_irrelevant tid data m rp nm sites pass nested friends rc (s : st) :
+  gen_rows (Tmpl tid (LForEach (mkDs data m rp nm)) sites pass nested friends) rc s =
+  gen_rows (Tmpl tid (LForEach (mkDs data m rp None)) sites pass nested friends) rc s.
+Proof.
+  rewrite !gen_rows_eq. unfold Datasets.new_iter, Datasets.start. cbn [d_mode d_data d_repeat].
+  destruct m; cbn [bind]; [reflexivity|].
+  destruct (shuffle data (s_orc R C s)) as [[res o]|e]; reflexivity.
+Qed.
 
 (* invariants through the loops *)
 Definition holds (P : st -> Prop) (Q : list row -> Prop) (r : res R C unit) : Prop :=
@@ -706,9 +723,59 @@ Proof.
     + assumption.
 Qed.
 
+(* ------------------------------------------------------------------ state keys *)
+
+Lemma mode_eqb_eq a b : mode_eqb a b = true <-> a = b.
+Proof. destruct a, b; cbn; split; intros H; try reflexivity; discriminate. Qed.
+
+Lemma key_eqb_eq a b : key_eqb a b = true <-> a = b.
+Proof.
+  destruct a as [x|f x], b as [y|g y]; cbn [Datasets.key_eqb]; split; intros H; try discriminate.
+  - apply Nat.eqb_eq in H. subst. reflexivity.
+  - inversion H; subst. apply Nat.eqb_refl.
+  - apply andb_prop in H. destruct H as [H1 H2]. apply mode_eqb_eq in H1. apply Nat.eqb_eq in H2.
+    subst. reflexivity.
+  - inversion H; subst. apply andb_true_intro. split; [apply mode_eqb_eq; reflexivity|apply Nat.eqb_refl].
+Qed.
+
+Lemma key_eqb_refl a : key_eqb a a = true.
+Proof. apply key_eqb_eq. reflexivity. Qed.
+
+Lemma key_eqb_neq a b : key_eqb a b = false <-> a <> b.
+Proof.
+  split.
+  - intros H E. apply key_eqb_eq in E. rewrite E in H. discriminate.
+  - intros H. destruct (key_eqb a b) eqn:E; [apply key_eqb_eq in E; contradiction|reflexivity].
+Qed.
+
+Lemma key_eq_dec (a b : key) : {a = b} + {a <> b}.
+Proof.
+  destruct (key_eqb a b) eqn:E; [left; apply key_eqb_eq; exact E|right; apply key_eqb_neq; exact E].
+Qed.
+
+(* which evaluations share an iterator: two call sites have the same state key exactly when both
+   are named, call the same function (iterate / shuffle) and carry the same name — or are the
+   same unnamed call site *)
+Lemma key_of_shared s1 (d1 : dsref) s2 (d2 : dsref) :
+  key_of R s1 d1 = key_of R s2 d2 <->
+  match d_name R d1, d_name R d2 with
+  | Some n1, Some n2 => n1 = n2 /\ d_mode R d1 = d_mode R d2
+  | None, None => s1 = s2
+  | _, _ => False
+  end.
+Proof.
+  unfold Datasets.key_of.
+  destruct (d_name R d1) as [n1|], (d_name R d2) as [n2|]; split; intros H;
+    try discriminate; try contradiction.
+  - inversion H; subst. auto.
+  - destruct H as [-> ->]. reflexivity.
+  - inversion H; reflexivity.
+  - subst. reflexivity.
+Qed.
+
 Section Placement.
-Variable sid : nat.                (* the call site we follow *)
-Variable d0 : dsref.               (* its arguments *)
+Variable sid : key.                (* the state key we follow: an unnamed call site, or a name *)
+Variable d0 : dsref.               (* the arguments of every call under that key *)
 (* the call site's iterator as a process: its state and what it has handed out after k draws.
    A draw either advances the process by one record without touching the oracle, or fails. *)
 Variable seq_at : nat -> list R.
@@ -725,7 +792,7 @@ Hypothesis step_at : forall k orc,
 Fixpoint occ_sites (l : list (nat * dsref)) : nat :=
   match l with
   | [] => O
-  | (k, _) :: r => (if Nat.eqb k sid then 1 else 0) + occ_sites r
+  | (k, d) :: r => (if key_eqb (key_of R k d) sid then 1 else 0) + occ_sites r
   end.
 
 Fixpoint occ (t : tmpl) : nat :=
@@ -738,12 +805,29 @@ with occ_list (ts : tmpls) : nat :=
   | TCons t r => occ t + occ_list r
   end.
 
+(* where the calls under the key may stand so that the order in which rows are WRITTEN is the order
+   in which they consumed: a template that draws under the key in its own fields has no draw
+   under the key in its nested objects (a nested object's rows are written before the row that
+   contains them, after that row's own fields were evaluated).  Friends, sibling templates,
+   several fields of one row, other iterations are all fine.  A key that occurs once (an unnamed
+   call site) always satisfies this: occ_le1_nest_ok. *)
+Fixpoint nest_ok (t : tmpl) : Prop :=
+  match t with
+  | Tmpl _ _ sites _ nested friends =>
+    (occ_sites sites = O \/ occ_list nested = O) /\ nest_ok_list nested /\ nest_ok_list friends
+  end
+with nest_ok_list (ts : tmpls) : Prop :=
+  match ts with
+  | TNil => True
+  | TCons t r => nest_ok t /\ nest_ok_list r
+  end.
+
 (* every occurrence has the arguments d0 (rc = the inherited recalculate_every_time, which
    nothing in a recipe can turn on for a field any more: false from the root) *)
 Fixpoint sites_ok (rc : bool) (l : list (nat * dsref)) : Prop :=
   match l with
   | [] => True
-  | (k, d) :: r => (k = sid -> d = d0 /\ rc = false) /\ sites_ok rc r
+  | (k, d) :: r => (key_of R k d = sid -> d = d0 /\ rc = false) /\ sites_ok rc r
   end.
 
 Fixpoint plain (rc : bool) (t : tmpl) : Prop :=
@@ -758,10 +842,10 @@ with plain_list (rc : bool) (ts : tmpls) : Prop :=
   end.
 
 (* the records the site has handed out, as visible in the rows *)
-Fixpoint vals (l : list (nat * R)) : list R :=
+Fixpoint vals (l : list (key * R)) : list R :=
   match l with
   | [] => []
-  | (k, x) :: r => if Nat.eqb k sid then x :: vals r else vals r
+  | (k, x) :: r => if key_eqb k sid then x :: vals r else vals r
   end.
 
 Fixpoint trace (rows : list row) : list R :=
@@ -776,18 +860,18 @@ Proof. induction a as [|r a IH]; cbn [trace app]; [reflexivity|]. rewrite IH, ap
 Lemma lookup_store_other k v l : k <> sid -> lookup R sid (store R k v l) = lookup R sid l.
 Proof.
   intros Hk. induction l as [|[k' w] l IH]; cbn [Datasets.store Datasets.lookup].
-  - destruct (Nat.eqb k sid) eqn:E; [apply Nat.eqb_eq in E; contradiction|reflexivity].
-  - destruct (Nat.eqb k' k) eqn:E1; cbn [Datasets.lookup].
-    + apply Nat.eqb_eq in E1. subst k'.
-      destruct (Nat.eqb k sid) eqn:E; [apply Nat.eqb_eq in E; contradiction|reflexivity].
+  - destruct (key_eqb k sid) eqn:E; [apply key_eqb_eq in E; contradiction|reflexivity].
+  - destruct (key_eqb k' k) eqn:E1; cbn [Datasets.lookup].
+    + apply key_eqb_eq in E1. subst k'.
+      destruct (key_eqb k sid) eqn:E; [apply key_eqb_eq in E; contradiction|reflexivity].
     + rewrite IH. reflexivity.
 Qed.
 
 Lemma lookup_store_same v l : lookup R sid (store R sid v l) = Some v.
 Proof.
   induction l as [|[k' w] l IH]; cbn [Datasets.store Datasets.lookup].
-  - rewrite Nat.eqb_refl. reflexivity.
-  - destruct (Nat.eqb k' sid) eqn:E1; cbn [Datasets.lookup]; rewrite E1; [reflexivity|assumption].
+  - rewrite key_eqb_refl. reflexivity.
+  - destruct (key_eqb k' sid) eqn:E1; cbn [Datasets.lookup]; rewrite E1; [reflexivity|assumption].
 Qed.
 
 (* ---- frame: a part of the recipe without the call site leaves its iterator and trace alone *)
@@ -801,22 +885,25 @@ Lemma frame_P_refl (s : st) : frame_P (lookup R sid (s_sites R C s)) (s_out R C 
 Proof. split; [reflexivity|]. exists []. rewrite app_nil_r. auto. Qed.
 
 Lemma site_draw_frame rc k d lk out0 (s : st) :
-  k <> sid -> frame_P lk out0 s ->
+  key_of R k d <> sid -> frame_P lk out0 s ->
   match site_draw R C rc k d s with
   | ROk _ _ _ _ s' => frame_P lk out0 s'
   | RErr _ _ _ _ o => frame_Q out0 o
   end.
 Proof.
-  intros Hk [Hl Ho]. unfold Datasets.site_draw.
+  intros Hk [Hl Ho]. unfold Datasets.site_draw, Datasets.memo_get.
   destruct rc.
-  - destruct (new_iter d (s_orc R C s)) as [[it o1]|e]; [|exact Ho].
+  - destruct (new_iter d (s_orc R C s)) as [[it o1]|e]; cbn [bind]; [|exact Ho].
     destruct (field_draw it o1) as [[[x it'] o2]|e]; [|exact Ho].
     split; cbn [s_sites s_out]; assumption.
-  - destruct (match lookup R k (s_sites R C s) with Some it => Ok (it, s_orc R C s) | None => new_iter d (s_orc R C s) end)
-      as [[it o1]|e]; [|exact Ho].
-    destruct (field_draw it o1) as [[[x it'] o2]|e]; [|exact Ho].
-    split; cbn [s_sites s_out]; [|assumption].
-    rewrite lookup_store_other by assumption. assumption.
+  - destruct (lookup R (key_of R k d) (s_sites R C s)) as [it|].
+    + destruct (field_draw it (s_orc R C s)) as [[[x it'] o2]|e]; [|exact Ho].
+      split; cbn [s_sites s_out]; [|assumption].
+      rewrite lookup_store_other by assumption. assumption.
+    + destruct (new_iter d (s_orc R C s)) as [[it o1]|e]; cbn [bind]; [|exact Ho].
+      destruct (field_draw it o1) as [[[x it'] o2]|e]; [|exact Ho].
+      split; cbn [s_sites s_out]; [|assumption].
+      rewrite lookup_store_other by assumption. assumption.
 Qed.
 
 Lemma draw_sites_frame rc lk out0 : forall sites (s : st),
@@ -829,13 +916,13 @@ Proof.
   induction sites as [|[k d] sites IH]; intros s Hocc Hs; cbn [Datasets.draw_sites].
   - split; [assumption|reflexivity].
   - cbn [occ_sites] in Hocc.
-    destruct (Nat.eqb k sid) eqn:Ek; [lia|]. apply Nat.eqb_neq in Ek.
+    destruct (key_eqb (key_of R k d) sid) eqn:Ek; [lia|]. apply key_eqb_neq in Ek.
     pose proof (site_draw_frame rc k d lk out0 s Ek Hs) as H1.
     destruct (site_draw R C rc k d s) as [x s1|e o]; [|exact H1].
     specialize (IH s1 ltac:(lia) H1).
     destruct (draw_sites R C rc sites s1) as [cs s2|e o]; [|exact IH].
     destruct IH as [IH1 IH2]. split; [assumption|].
-    cbn [vals]. apply Nat.eqb_neq in Ek. rewrite Ek. assumption.
+    cbn [vals]. apply key_eqb_neq in Ek. rewrite Ek. assumption.
 Qed.
 
 Lemma frame_emit lk out0 (s : st) r :
@@ -899,29 +986,30 @@ Definition InvP (s : st) (pend : list R) : Prop :=
   eff s = iter_at (length (trace (s_out R C s) ++ pend)).
 Definition GoodOut (o : list row) : Prop := Good (trace o).
 
-Lemma cached_draw (s : st) pend :
+Lemma cached_draw k (s : st) pend :
+  key_of R k d0 = sid ->
   InvP s pend ->
-  match site_draw R C false sid d0 s with
+  match site_draw R C false k d0 s with
   | ROk _ _ _ x s' => InvP s' (pend ++ [x])
   | RErr _ _ _ _ o => o = s_out R C s
   end.
 Proof.
-  intros (Hg1 & Hg2 & He). unfold Datasets.site_draw.
-  set (k := length (trace (s_out R C s) ++ pend)) in *.
+  intros Hkey (Hg1 & Hg2 & He). unfold Datasets.site_draw, Datasets.memo_get. rewrite Hkey.
+  set (n := length (trace (s_out R C s) ++ pend)) in *.
   assert (Hit : match lookup R sid (s_sites R C s) with
-                | Some it => Ok (it, s_orc R C s)
-                | None => new_iter d0 (s_orc R C s)
-                end = Ok (iter_at k, s_orc R C s)).
+                | Some it => Ok (it, s_orc R C s, Some sid)
+                | None => do '(it, orc1) <- new_iter d0 (s_orc R C s); Ok (it, orc1, Some sid)
+                end = Ok (iter_at n, s_orc R C s, Some sid)).
   { unfold eff in He. destruct (lookup R sid (s_sites R C s)); [rewrite He; reflexivity|].
     rewrite new_at, He. reflexivity. }
-  rewrite Hit. pose proof (step_at k (s_orc R C s)) as Hd.
-  destruct (field_draw (iter_at k) (s_orc R C s)) as [[[x it'] o']|e]; [|reflexivity].
+  rewrite Hit. pose proof (step_at n (s_orc R C s)) as Hd.
+  destruct (field_draw (iter_at n) (s_orc R C s)) as [[[x it'] o']|e]; [|reflexivity].
   destruct Hd as (-> & -> & Hc).
   unfold InvP, eff; cbn [s_out s_sites]. rewrite lookup_store_same.
-  rewrite app_assoc, app_length. cbn [length]. fold k.
+  rewrite app_assoc, app_length. cbn [length]. fold n.
   splits; [assumption| |f_equal; lia].
-  unfold Good. rewrite app_length. cbn [length]. fold k.
-  replace (k + 1)%nat with (S k) by lia. rewrite Hc. f_equal. exact Hg2.
+  unfold Good. rewrite app_length. cbn [length]. fold n.
+  replace (n + 1)%nat with (S n) by lia. rewrite Hc. f_equal. exact Hg2.
 Qed.
 
 Lemma InvP_frame (s s' : st) pend :
@@ -950,14 +1038,14 @@ Proof.
   induction sites as [|[k d] sites IH]; intros s pend Hok Hs; cbn [Datasets.draw_sites].
   - cbn [vals]. rewrite app_nil_r. auto.
   - cbn [sites_ok] in Hok. destruct Hok as [Hk Hok].
-    destruct (Nat.eq_dec k sid) as [->|Hne].
-    + destruct (Hk eq_refl) as [-> ->].
-      pose proof (cached_draw s pend Hs) as Hd.
-      destruct (site_draw R C false sid d0 s) as [x s1|e o];
+    destruct (key_eq_dec (key_of R k d) sid) as [Heq|Hne].
+    + destruct (Hk Heq) as [-> ->].
+      pose proof (cached_draw k s pend Heq Hs) as Hd.
+      destruct (site_draw R C false k d0 s) as [x s1|e o];
         [|subst o; eapply InvP_GoodOut; eassumption].
       specialize (IH s1 (pend ++ [x]) Hok Hd).
       destruct (draw_sites R C false sites s1) as [cs s2|e o]; [|exact IH].
-      cbn [vals]. rewrite Nat.eqb_refl.
+      cbn [vals]. rewrite Heq, key_eqb_refl.
       rewrite <- app_assoc in IH. exact IH.
     + pose proof (site_draw_frame rc k d _ _ s Hne (frame_P_refl s)) as H1.
       destruct (site_draw R C rc k d s) as [x s1|e o].
@@ -965,7 +1053,7 @@ Proof.
         specialize (IH s1 pend Hok Hs1).
         destruct (draw_sites R C rc sites s1) as [cs s2|e o]; [|exact IH].
         cbn [vals].
-        destruct (Nat.eqb k sid) eqn:E; [apply Nat.eqb_eq in E; contradiction|].
+        destruct (key_eqb (key_of R k d) sid) eqn:E; [apply key_eqb_eq in E; contradiction|].
         exact IH.
       * eapply GoodOut_frame; eassumption.
 Qed.
@@ -986,8 +1074,8 @@ Proof.
     cbn [occ]. rewrite (IHn Hn), (IHf Hf).
     assert (occ_sites sites = O); [|lia].
     clear - Hs. induction sites as [|[k d] sites IH]; cbn [occ_sites sites_ok] in *; [reflexivity|].
-    destruct Hs as [Hk Hs]. destruct (Nat.eqb k sid) eqn:E.
-    + apply Nat.eqb_eq in E. destruct (Hk E) as [_ H]. discriminate.
+    destruct Hs as [Hk Hs]. destruct (key_eqb (key_of R k d) sid) eqn:E.
+    + apply key_eqb_eq in E. destruct (Hk E) as [_ H]. discriminate.
     + rewrite (IH Hs). reflexivity.
   - reflexivity.
   - intros t IHt r IHr [H1 H2]. cbn [occ_list]. rewrite (IHt H1), (IHr H2). reflexivity.
@@ -1001,7 +1089,7 @@ Lemma vals_occ rc : forall sites (s : st),
   end.
 Proof.
   induction sites as [|[k d] sites IH]; intros s Hocc; cbn [Datasets.draw_sites]; [reflexivity|].
-  cbn [occ_sites] in Hocc. destruct (Nat.eqb k sid) eqn:E; [lia|].
+  cbn [occ_sites] in Hocc. destruct (key_eqb (key_of R k d) sid) eqn:E; [lia|].
   destruct (site_draw R C rc k d s) as [x s1|e o]; [|exact I].
   specialize (IH s1 ltac:(lia)).
   destruct (draw_sites R C rc sites s1) as [cs s2|e o]; [|exact I].
@@ -1009,14 +1097,15 @@ Proof.
 Qed.
 
 Lemma placement_gen :
-  (forall t : tmpl, (occ t <= 1)%nat -> forall rc s, plain rc t -> InvP s [] ->
+  (forall t : tmpl, nest_ok t -> forall rc s, plain rc t -> InvP s [] ->
       holds (fun s' => InvP s' []) GoodOut (gen_rows t rc s)) /\
-  (forall ts : tmpls, (occ_list ts <= 1)%nat -> forall rc s, plain_list rc ts -> InvP s [] ->
+  (forall ts : tmpls, nest_ok_list ts -> forall rc s, plain_list rc ts -> InvP s [] ->
       holds (fun s' => InvP s' []) GoodOut (gen_list ts rc s)).
 Proof.
   apply tmpl_mutind.
   - intros tid lp sites pass nested IHn friends IHf Hocc rc s Hpl Hs.
-    cbn [occ] in Hocc. cbn [plain] in Hpl. destruct Hpl as (Hso & Hpn & Hpf).
+    cbn [nest_ok] in Hocc. destruct Hocc as (Hor & Hnn & Hnf).
+    cbn [plain] in Hpl. destruct Hpl as (Hso & Hpn & Hpf).
     set (rc' := rc) in *.
     assert (Hrow : forall fe i s, InvP s [] ->
                holds (fun s' => InvP s' []) GoodOut (one_row tid sites pass nested friends rc' fe i s)).
@@ -1025,41 +1114,49 @@ Proof.
       pose proof (vals_occ rc' sites s1) as Hv.
       destruct (draw_sites R C rc' sites s1) as [cs s2|e o]; [|exact H1].
       cbn [app] in H1.
-      destruct (Nat.eq_dec (occ_sites sites) 0) as [Hz|Hnz].
-      - (* the call site is not in this template: go into the children *)
-        rewrite (Hv Hz) in H1.
-        pose proof (IHn ltac:(lia) rc' s2 Hpn H1) as H2.
-        destruct (gen_list nested rc' s2) as [u s3|e o]; [|exact H2].
-        cbn [holds] in H2.
-        destruct (project fe pass) as [pv|e]; [|cbn [holds]; eapply InvP_GoodOut; eassumption].
-        apply IHf; [lia|assumption|].
-        apply InvP_emit. cbn [r_cons]. rewrite (Hv Hz). assumption.
-      - (* the call site is a field of this template: the children do not touch it *)
-        pose proof (proj2 (frame_gen) nested ltac:(lia) rc' _ _ s2 (frame_P_refl s2)) as H2.
-        destruct (gen_list nested rc' s2) as [u s3|e o];
-          [|cbn [holds] in *; eapply GoodOut_frame; eassumption].
-        cbn [holds] in H2. pose proof (InvP_frame _ _ _ H2 H1) as H3.
-        destruct (project fe pass) as [pv|e]; [|cbn [holds]; eapply InvP_GoodOut; eassumption].
-        assert (H4 : InvP (emit R C (mkRow tid fe i cs pv) s3) []) by (apply InvP_emit; exact H3).
-        pose proof (proj2 (frame_gen) friends ltac:(lia) rc' _ _ _ (frame_P_refl (emit R C (mkRow tid fe i cs pv) s3))) as H5.
-        destruct (gen_list friends rc' (emit R C (mkRow tid fe i cs pv) s3)) as [u' s4|e o]; cbn [holds] in *.
-        + eapply InvP_frame; eassumption.
-        + eapply GoodOut_frame; eassumption. }
+      (* after the nested objects: the row's own draws are still pending *)
+      assert (H3 : holds (fun s3 => InvP s3 (vals cs)) GoodOut (gen_list nested rc' s2)).
+      { destruct (Nat.eq_dec (occ_sites sites) 0) as [Hz|Hnz].
+        - (* no draw under the key among this template's fields: go into the children *)
+          rewrite (Hv Hz) in *.
+          exact (IHn Hnn rc' s2 Hpn H1).
+        - (* this template draws under the key: its nested objects do not touch it *)
+          assert (Hn0 : occ_list nested = O) by (destruct Hor; [contradiction|assumption]).
+          pose proof (proj2 (frame_gen) nested Hn0 rc' _ _ s2 (frame_P_refl s2)) as H2.
+          destruct (gen_list nested rc' s2) as [u s3|e o]; cbn [holds] in *.
+          + eapply InvP_frame; eassumption.
+          + eapply GoodOut_frame; eassumption. }
+      destruct (gen_list nested rc' s2) as [u s3|e o]; [|exact H3].
+      cbn [holds] in H3.
+      destruct (project fe pass) as [pv|e]; [|cbn [holds]; eapply InvP_GoodOut; eassumption].
+      apply IHf; [assumption|assumption|].
+      apply InvP_emit. exact H3. }
     rewrite gen_rows_eq. subst rc'. destruct lp as [|m|d].
     + apply count_loop_inv; [|assumption]. intros; apply Hrow; assumption.
     + apply count_loop_inv; [|assumption]. intros; apply Hrow; assumption.
     + destruct (new_iter d (s_orc R C s)) as [[it o1]|e]; [|cbn [holds]; eapply InvP_GoodOut; eassumption].
       apply each_loop_inv; [intros; apply Hrow; assumption|]. exact Hs.
   - intros _ rc s _ Hs. rewrite gen_list_nil. exact Hs.
-  - intros t IHt r IHr Hocc rc s [Hp1 Hp2] Hs. cbn [occ_list] in Hocc.
+  - intros t IHt r IHr [Ho1 Ho2] rc s [Hp1 Hp2] Hs.
     rewrite gen_list_cons.
-    pose proof (IHt ltac:(lia) rc s Hp1 Hs) as H1.
+    pose proof (IHt Ho1 rc s Hp1 Hs) as H1.
     destruct (gen_rows t rc s) as [u s1|e o]; [|exact H1].
-    apply IHr; [lia|assumption|exact H1].
+    apply IHr; [assumption|assumption|exact H1].
+Qed.
+
+Lemma occ_le1_nest_ok :
+  (forall t : tmpl, (occ t <= 1)%nat -> nest_ok t) /\
+  (forall ts : tmpls, (occ_list ts <= 1)%nat -> nest_ok_list ts).
+Proof.
+  apply tmpl_mutind.
+  - intros tid lp sites pass nested IHn friends IHf H. cbn [occ] in H. cbn [nest_ok].
+    splits; [lia|apply IHn; lia|apply IHf; lia].
+  - intros _. exact I.
+  - intros t IHt r IHr H. cbn [occ_list] in H. cbn [nest_ok_list]. split; [apply IHt|apply IHr]; lia.
 Qed.
 
 Lemma iterations_inv ts :
-  (occ_list ts <= 1)%nat -> plain_list false ts ->
+  nest_ok_list ts -> plain_list false ts ->
   forall k s, InvP s [] -> holds (fun s' => InvP s' []) GoodOut (iterations R C col k ts s).
 Proof.
   intros Hocc Hpl. induction k as [|k IH]; intros s Hs.
@@ -1073,7 +1170,7 @@ Qed.
 (* the records the call site hands out, read off the written rows, are exactly the first
    (so many) outputs of its iterator process *)
 Theorem placement_general iters ts orc rows e :
-  (occ_list ts <= 1)%nat -> plain_list false ts ->
+  nest_ok_list ts -> plain_list false ts ->
   run_recipe iters ts orc = (rows, e) ->
   trace rows = seq_at (length (trace rows)).
 Proof.
@@ -1090,20 +1187,36 @@ Qed.
 
 End Placement.
 
+(* a part of a recipe without a FIELD call under a key leaves the iterator remembered under that key
+   exactly as it was — for_each loops over the same name (occ does not count them: they never use
+   the remembered state) included *)
+Theorem untouched_state (k0 : key) (t : tmpl) rc (s : st) :
+  occ k0 t = O ->
+  match gen_rows t rc s with
+  | ROk _ _ _ _ s' => lookup R k0 (s_sites R C s') = lookup R k0 (s_sites R C s)
+  | RErr _ _ _ _ _ => True
+  end.
+Proof.
+  intros Hocc.
+  pose proof (proj1 (frame_gen k0) t Hocc rc _ _ s (frame_P_refl k0 s)) as H.
+  destruct (gen_rows t rc s) as [u s'|e o]; [|exact I].
+  destruct H as [H _]. exact H.
+Qed.
+
 (* ---- instance 1: Dataset.iterate with repeat on, n > 0 *)
 
-Lemma draw_step (data : list R) k orc :
+Lemma draw_step nm (data : list R) k orc :
   data <> [] ->
-  exists x, field_draw (mkIter R (mkDs data Linear true) true (rest_after data data k)) orc
-            = Ok (x, mkIter R (mkDs data Linear true) true (rest_after data data (S k)), orc) /\
+  exists x, field_draw (mkIter R (mkDs data Linear true nm) true (rest_after data data k)) orc
+            = Ok (x, mkIter R (mkDs data Linear true nm) true (rest_after data data (S k)), orc) /\
             cyc_from data data (S k) = cyc_from data data k ++ [x].
 Proof.
   intros data_ne.
-  pose proof (draw_seq_linear (k + 1) data data true orc data_ne) as H.
+  pose proof (draw_seq_linear nm (k + 1) data data true orc data_ne) as H.
   destruct (draw_seq_app _ _ _ _ _ _ _ H) as (l1 & l2 & it1 & o1 & H1 & H2 & Hl).
-  rewrite (draw_seq_linear k data data true orc data_ne) in H1. inversion H1; subst l1 it1 o1; clear H1.
+  rewrite (draw_seq_linear nm k data data true orc data_ne) in H1. inversion H1; subst l1 it1 o1; clear H1.
   cbn [Datasets.draw_seq] in H2.
-  destruct (field_draw (mkIter R (mkDs data Linear true) true (rest_after data data k)) orc)
+  destruct (field_draw (mkIter R (mkDs data Linear true nm) true (rest_after data data k)) orc)
     as [[[x it'] o']|] eqn:Hd; cbn [bind] in H2; [|discriminate].
   inversion H2; subst. exists x. replace (S k) with (k + 1)%nat by lia. split; [reflexivity|assumption].
 Qed.
@@ -1113,21 +1226,21 @@ Qed.
    any depth, next to any other templates and call sites.  The records it hands to the rows, read off
    the rows in the order they are written over all iterations, are record 0, 1, .., n-1, 0, 1, ..
    — also when the run ends in an error (for the rows written before it). *)
-Theorem placement_mod_n (sid : nat) (data : list R) iters ts orc rows e :
+Theorem placement_mod_n (sid : key) (data : list R) (nm : option nat) iters ts orc rows e :
   data <> [] ->
-  (occ_list sid ts <= 1)%nat -> plain_list sid (mkDs data Linear true) false ts ->
+  nest_ok_list sid ts -> plain_list sid (mkDs data Linear true nm) false ts ->
   run_recipe iters ts orc = (rows, e) ->
   forall j, (j < length (trace sid rows))%nat ->
     nth_error (trace sid rows) j = nth_error data (j mod length data).
 Proof.
   intros Hne Hocc Hpl Hrun j Hj.
   assert (Hg : trace sid rows = cyc_from data data (length (trace sid rows))).
-  { eapply (placement_general sid (mkDs data Linear true) (fun k => cyc_from data data k)
-              (fun k => mkIter R (mkDs data Linear true) true (rest_after data data k)));
+  { eapply (placement_general sid (mkDs data Linear true nm) (fun k => cyc_from data data k)
+              (fun k => mkIter R (mkDs data Linear true nm) true (rest_after data data k)));
       try eassumption.
     - reflexivity.
     - reflexivity.
-    - intros k o. destruct (draw_step data k o Hne) as (x & Hd & Hc). rewrite Hd. auto. }
+    - intros k o. destruct (draw_step nm data k o Hne) as (x & Hd & Hc). rewrite Hd. auto. }
   rewrite Hg.
   pose proof (cyc_from_nth (length (trace sid rows)) data 0 j Hne ltac:(lia) Hj) as Hc.
   cbn [skipn Nat.add] in Hc. exact Hc.
@@ -1147,16 +1260,16 @@ Qed.
    below for_each templates), hands out at most n records over the whole run (all rows, all iterations), and they
    are the file's records in file order.  A run in which more than n rows consume it therefore
    cannot succeed: the model's only way out is the DataGenError of no_silent_reuse. *)
-Theorem placement_norepeat (sid : nat) (data : list R) iters ts orc rows e :
-  (occ_list sid ts <= 1)%nat -> plain_list sid (mkDs data Linear false) false ts ->
+Theorem placement_norepeat (sid : key) (data : list R) (nm : option nat) iters ts orc rows e :
+  nest_ok_list sid ts -> plain_list sid (mkDs data Linear false nm) false ts ->
   run_recipe iters ts orc = (rows, e) ->
   trace sid rows = firstn (length (trace sid rows)) data /\
   (length (trace sid rows) <= length data)%nat.
 Proof.
   intros Hocc Hpl Hrun.
   assert (Hg : trace sid rows = firstn (length (trace sid rows)) data).
-  { eapply (placement_general sid (mkDs data Linear false) (fun k => firstn k data)
-              (fun k => mkIter R (mkDs data Linear false) false (skipn k data)));
+  { eapply (placement_general sid (mkDs data Linear false nm) (fun k => firstn k data)
+              (fun k => mkIter R (mkDs data Linear false nm) false (skipn k data)));
       try eassumption.
     - reflexivity.
     - reflexivity.
@@ -1184,7 +1297,7 @@ with tid_free_list (ts : tmpls) : Prop :=
   end.
 
 Definition mine (rows : list row) : list row := filter (fun r => Nat.eqb (r_tid r) tid) rows.
-Definition key (r : row) : option R * Z := (r_fe R C r, r_index R C r).
+Definition fe_key (r : row) : option R * Z := (r_fe R C r, r_index R C r).
 Fixpoint keys (recs : list R) (i : Z) : list (option R * Z) :=
   match recs with
   | [] => []
@@ -1200,12 +1313,9 @@ Lemma site_draw_out rc k d (s : st) :
   | RErr _ _ _ _ o => o = s_out R C s
   end.
 Proof.
-  unfold Datasets.site_draw. destruct rc.
-  - destruct (new_iter d (s_orc R C s)) as [[it o1]|e]; [|reflexivity].
-    destruct (field_draw it o1) as [[[x it'] o2]|e]; reflexivity.
-  - destruct (match lookup R k (s_sites R C s) with Some it => Ok (it, s_orc R C s) | None => new_iter d (s_orc R C s) end)
-      as [[it o1]|e]; [|reflexivity].
-    destruct (field_draw it o1) as [[[x it'] o2]|e]; reflexivity.
+  unfold Datasets.site_draw.
+  destruct (memo_get R C rc k d s) as [[[it o1] ko]|e]; [|reflexivity].
+  destruct (field_draw it o1) as [[[x it'] o2]|e]; reflexivity.
 Qed.
 
 Lemma draw_sites_out rc : forall sites (s : st),
@@ -1271,8 +1381,8 @@ Definition prefix {A} (a b : list A) : Prop := exists c, b = a ++ c.
 Lemma one_row_mine sites pass nested friends rc fe i (s : st) :
   tid_free_list nested -> tid_free_list friends ->
   match one_row tid sites pass nested friends rc fe i s with
-  | ROk _ _ _ _ s' => exists ex, s_out R C s' = s_out R C s ++ ex /\ map key (mine ex) = [(fe, i)]
-  | RErr _ _ _ _ o => exists ex, o = s_out R C s ++ ex /\ prefix (map key (mine ex)) [(fe, i)]
+  | ROk _ _ _ _ s' => exists ex, s_out R C s' = s_out R C s ++ ex /\ map fe_key (mine ex) = [(fe, i)]
+  | RErr _ _ _ _ o => exists ex, o = s_out R C s ++ ex /\ prefix (map fe_key (mine ex)) [(fe, i)]
   end.
 Proof.
   intros Hn Hf. unfold one_row.
@@ -1290,7 +1400,7 @@ Proof.
   pose proof (proj2 quiet_gen friends Hf rc _ s3 (quiet_refl s3)) as H3.
   assert (Hs3 : s_out R C s3 = s_out R C s ++ (ex ++ [mkRow tid fe i cs pv])).
   { unfold s3, Datasets.emit; cbn [s_out]. rewrite Ho, H1, app_assoc. reflexivity. }
-  assert (Hk : map key (mine (ex ++ [mkRow tid fe i cs pv])) = [(fe, i)]).
+  assert (Hk : map fe_key (mine (ex ++ [mkRow tid fe i cs pv])) = [(fe, i)]).
   { rewrite mine_app, Hm. cbn [mine filter r_tid app]. rewrite Nat.eqb_refl. reflexivity. }
   destruct (gen_list friends rc s3) as [u' s4|e o]; cbn [holds] in H3;
     destruct H3 as (ex2 & Ho2 & Hm2); exists ((ex ++ [mkRow tid fe i cs pv]) ++ ex2);
@@ -1304,8 +1414,8 @@ Lemma each_loop_mine sites pass nested friends rc :
   tid_free_list nested -> tid_free_list friends ->
   forall recs i (s : st),
   match each_loop R C (fun x => one_row tid sites pass nested friends rc (Some x)) recs i s with
-  | ROk _ _ _ _ s' => exists ex, s_out R C s' = s_out R C s ++ ex /\ map key (mine ex) = keys recs i
-  | RErr _ _ _ _ o => exists ex, o = s_out R C s ++ ex /\ prefix (map key (mine ex)) (keys recs i)
+  | ROk _ _ _ _ s' => exists ex, s_out R C s' = s_out R C s ++ ex /\ map fe_key (mine ex) = keys recs i
+  | RErr _ _ _ _ o => exists ex, o = s_out R C s ++ ex /\ prefix (map fe_key (mine ex)) (keys recs i)
   end.
 Proof.
   intros Hn Hf. induction recs as [|x r IH]; intros i s; cbn [Datasets.each_loop keys].
@@ -1331,11 +1441,11 @@ Theorem for_each_general (d : dsref) sites pass nested friends rc (s : st) :
   match gen_rows (Tmpl tid (LForEach d) sites pass nested friends) rc s with
   | ROk _ _ _ _ s' =>
     exists it orc1 ex, new_iter d (s_orc R C s) = Ok (it, orc1) /\
-      s_out R C s' = s_out R C s ++ ex /\ map key (mine ex) = keys (i_rest R it) 0
+      s_out R C s' = s_out R C s ++ ex /\ map fe_key (mine ex) = keys (i_rest R it) 0
   | RErr _ _ _ _ o =>
     (exists e, new_iter d (s_orc R C s) = Err e /\ o = s_out R C s) \/
     exists it orc1 ex, new_iter d (s_orc R C s) = Ok (it, orc1) /\
-      o = s_out R C s ++ ex /\ prefix (map key (mine ex)) (keys (i_rest R it) 0)
+      o = s_out R C s ++ ex /\ prefix (map fe_key (mine ex)) (keys (i_rest R it) 0)
   end.
 Proof.
   intros Hn Hf. rewrite gen_rows_eq.
@@ -1364,3 +1474,430 @@ Qed.
 End ForEachGeneral.
 
 End Proofs.
+
+(* ------------------------------------------------------------------ the CSV reader *)
+
+Definition feed1 (s : rd) (acc : list (list (list Z))) (c : option Z)
+  : result (rd * list (list (list Z))) :=
+  do s' <- csv_step s c;
+  match c, rd_state s' with
+  | None, StartRecord => Ok (rd0, rev (rd_fields s') :: acc)
+  | _, _ => Ok (s', acc)
+  end.
+
+Lemma csv_run_cons s acc c r :
+  csv_run s acc (c :: r) = do '(s', acc') <- feed1 s acc c; csv_run s' acc' r.
+Proof.
+  cbn [csv_run]. unfold feed1. destruct (csv_step s c) as [s'|e]; cbn [bind]; [|reflexivity].
+  destruct c; [reflexivity|]. destruct (rd_state s'); reflexivity.
+Qed.
+
+Lemma eolize_cons pcr mid c r :
+  eolize pcr mid (c :: r) =
+  (if pcr && negb (c =? LF) then [None] else []) ++
+  (if c =? LF then Some c :: None :: eolize false false r
+   else if c =? CR then Some c :: eolize true false r
+   else Some c :: eolize false true r).
+Proof. reflexivity. Qed.
+
+Definition fits (cur f : list Z) : Prop := Z.of_nat (length cur + length f) <= FIELD_LIMIT.
+
+Lemma add_char_ok st fs cur c st' :
+  Z.of_nat (length cur) < FIELD_LIMIT ->
+  add_char (mkRd st fs cur) c st' = Ok (mkRd st' fs (c :: cur)).
+Proof.
+  intros H. unfold add_char. cbn [rd_field rd_fields].
+  destruct (Z.of_nat (length cur) <? FIELD_LIMIT) eqn:E; [reflexivity|].
+  apply Z.ltb_ge in E. lia.
+Qed.
+
+(* ---- inside a quoted field *)
+
+Lemma quoted_eol fs cur acc r :
+  csv_run (mkRd InQuoted fs cur) acc (None :: r) = csv_run (mkRd InQuoted fs cur) acc r.
+Proof. rewrite csv_run_cons. reflexivity. Qed.
+
+Lemma quoted_pre (b : bool) fs cur acc r :
+  csv_run (mkRd InQuoted fs cur) acc ((if b then [None] else []) ++ r)
+  = csv_run (mkRd InQuoted fs cur) acc r.
+Proof. destruct b; cbn [app]; [apply quoted_eol|reflexivity]. Qed.
+
+Lemma quoted_char fs cur acc c r :
+  (c =? QUOTE) = false -> Z.of_nat (length cur) < FIELD_LIMIT ->
+  csv_run (mkRd InQuoted fs cur) acc (Some c :: r) = csv_run (mkRd InQuoted fs (c :: cur)) acc r.
+Proof.
+  intros Hq Hl. rewrite csv_run_cons. unfold feed1, csv_step. cbn [rd_state]. rewrite Hq.
+  rewrite add_char_ok by assumption. reflexivity.
+Qed.
+
+Lemma quoted_quote fs cur acc r :
+  csv_run (mkRd InQuoted fs cur) acc (Some QUOTE :: r) = csv_run (mkRd QuoteInQuoted fs cur) acc r.
+Proof. rewrite csv_run_cons. reflexivity. Qed.
+
+Lemma qq_quote fs cur acc r :
+  Z.of_nat (length cur) < FIELD_LIMIT ->
+  csv_run (mkRd QuoteInQuoted fs cur) acc (Some QUOTE :: r) = csv_run (mkRd InQuoted fs (QUOTE :: cur)) acc r.
+Proof.
+  intros Hl. rewrite csv_run_cons. unfold feed1, csv_step. cbn [rd_state].
+  change (QUOTE =? QUOTE) with true. cbv iota. rewrite add_char_ok by assumption. reflexivity.
+Qed.
+
+(* the body of a quoted cell, up to and including the closing quote: every character of the cell
+   arrives, line ends inside it included; the line structure of the file plays no role *)
+Lemma quoted_body : forall f rest fs cur acc pcr mid,
+  fits cur f ->
+  csv_run (mkRd InQuoted fs cur) acc (eolize pcr mid (escape_quotes f ++ QUOTE :: rest))
+  = csv_run (mkRd QuoteInQuoted fs (rev f ++ cur)) acc (eolize false true rest).
+Proof.
+  unfold fits.
+  induction f as [|c f IH]; intros rest fs cur acc pcr mid Hfit; cbn [escape_quotes app rev].
+  - rewrite eolize_cons. change (QUOTE =? LF) with false. change (QUOTE =? CR) with false.
+    rewrite quoted_pre. apply quoted_quote.
+  - cbn [length] in Hfit.
+    assert (Hl : Z.of_nat (length cur) < FIELD_LIMIT) by lia.
+    assert (Hfit' : forall x, Z.of_nat (length (x :: cur) + length f) <= FIELD_LIMIT) by (intros; cbn [length]; lia).
+    rewrite <- List.app_assoc. cbn [app].
+    destruct (c =? QUOTE) eqn:Eq.
+    + apply Z.eqb_eq in Eq. subst c. cbn [app].
+      rewrite eolize_cons. change (QUOTE =? LF) with false. change (QUOTE =? CR) with false.
+      rewrite quoted_pre, quoted_quote.
+      rewrite eolize_cons. change (QUOTE =? LF) with false. change (QUOTE =? CR) with false.
+      cbn [andb app]. rewrite qq_quote by assumption. apply IH. apply Hfit'.
+    + cbn [app]. rewrite eolize_cons, quoted_pre.
+      destruct (c =? LF) eqn:El; [|destruct (c =? CR) eqn:Ec].
+      * rewrite quoted_char by assumption. rewrite quoted_eol. apply IH. apply Hfit'.
+      * rewrite quoted_char by assumption. apply IH. apply Hfit'.
+      * rewrite quoted_char by assumption. apply IH. apply Hfit'.
+Qed.
+
+(* ---- a bare cell *)
+
+Lemma plain_char_spec c :
+  plain_char c = true -> (c =? COMMA) = false /\ (c =? QUOTE) = false /\ (c =? CR) = false /\ (c =? LF) = false.
+Proof.
+  unfold plain_char. intros H. apply negb_true_iff in H.
+  repeat (apply orb_false_elim in H; destruct H as [H ?]). auto.
+Qed.
+
+Lemma is_nl_plain c : plain_char c = true -> is_nl c = false.
+Proof. intros H. destruct (plain_char_spec c H) as (_ & _ & H1 & H2). unfold is_nl. rewrite H1, H2. reflexivity. Qed.
+
+Lemma eolize_plain mid c r :
+  plain_char c = true -> eolize false mid (c :: r) = Some c :: eolize false true r.
+Proof.
+  intros H. destruct (plain_char_spec c H) as (_ & _ & H1 & H2).
+  rewrite eolize_cons, H1, H2. reflexivity.
+Qed.
+
+Lemma infield_char fs cur acc c r :
+  plain_char c = true -> Z.of_nat (length cur) < FIELD_LIMIT ->
+  csv_run (mkRd InField fs cur) acc (Some c :: r) = csv_run (mkRd InField fs (c :: cur)) acc r.
+Proof.
+  intros Hp Hl. destruct (plain_char_spec c Hp) as (H0 & _ & _ & _).
+  rewrite csv_run_cons. unfold feed1, csv_step. cbn [rd_state].
+  rewrite (is_nl_plain c Hp), H0. rewrite add_char_ok by assumption. reflexivity.
+Qed.
+
+Lemma bare_body : forall f rest fs cur acc,
+  forallb plain_char f = true -> fits cur f ->
+  csv_run (mkRd InField fs cur) acc (eolize false true (f ++ rest))
+  = csv_run (mkRd InField fs (rev f ++ cur)) acc (eolize false true rest).
+Proof.
+  unfold fits.
+  induction f as [|c f IH]; intros rest fs cur acc Hp Hfit; cbn [app rev]; [reflexivity|].
+  cbn [forallb] in Hp. apply andb_prop in Hp. destruct Hp as [Hc Hp].
+  cbn [length] in Hfit.
+  rewrite eolize_plain by assumption. rewrite infield_char by (assumption || lia).
+  rewrite <- List.app_assoc. cbn [app]. apply IH; [assumption|cbn [length]; lia].
+Qed.
+
+(* the first character of a bare cell, at the start of a record or after a comma *)
+Lemma fieldstart_char st fs acc c r :
+  st = StartRecord \/ st = StartField ->
+  plain_char c = true ->
+  csv_run (mkRd st fs []) acc (Some c :: r) = csv_run (mkRd InField fs [c]) acc r.
+Proof.
+  intros Hst Hp. destruct (plain_char_spec c Hp) as (H0 & H1 & _ & _).
+  rewrite csv_run_cons. unfold feed1, csv_step, start_field. cbn [rd_state].
+  destruct Hst as [-> | ->]; rewrite (is_nl_plain c Hp), H1, H0;
+    (rewrite add_char_ok by (cbn; unfold FIELD_LIMIT; lia)); reflexivity.
+Qed.
+
+Lemma fieldstart_quote st fs acc r :
+  st = StartRecord \/ st = StartField ->
+  csv_run (mkRd st fs []) acc (Some QUOTE :: r) = csv_run (mkRd InQuoted fs []) acc r.
+Proof. intros [-> | ->]; rewrite csv_run_cons; reflexivity. Qed.
+
+(* ---- one cell *)
+
+(* the reader right after the text of a cell f (fields fs before it) *)
+Inductive after_cell (f : list Z) (fs : list (list Z)) : rd -> Prop :=
+| AfterBare : f <> [] -> after_cell f fs (mkRd InField fs (rev f))
+| AfterQuoted : after_cell f fs (mkRd QuoteInQuoted fs (rev f))
+| AfterEmpty : f = [] -> after_cell f fs (mkRd StartField fs []).
+
+Lemma read_cell c alone st fs acc mid rest :
+  cell_ok alone c = true ->
+  (st = StartRecord /\ mid = false /\ (alone = true \/ w_quoted c = true \/ w_text c <> [])) \/
+  (st = StartField /\ mid = true) ->
+  exists s, after_cell (w_text c) fs s /\
+    csv_run (mkRd st fs []) acc (eolize false mid (write_cell c ++ rest))
+    = csv_run s acc (eolize false true rest).
+Proof.
+  intros Hok Hst. unfold cell_ok in Hok. apply andb_prop in Hok. destruct Hok as [Hlen Hok].
+  apply Z.leb_le in Hlen.
+  assert (Hs : st = StartRecord \/ st = StartField) by (destruct Hst as [(H & _)|(H & _)]; auto).
+  unfold write_cell. destruct c as [f q]. cbn [w_text w_quoted] in *.
+  destruct q.
+  - (* quoted *)
+    exists (mkRd QuoteInQuoted fs (rev f)). split; [constructor|].
+    cbn [app]. rewrite eolize_cons. change (QUOTE =? LF) with false. change (QUOTE =? CR) with false.
+    cbn [andb app]. rewrite fieldstart_quote by assumption.
+    rewrite <- List.app_assoc. cbn [app].
+    rewrite quoted_body by (unfold fits; cbn [length]; lia).
+    rewrite app_nil_r. reflexivity.
+  - cbn [orb] in Hok. apply andb_prop in Hok. destruct Hok as [Hp Hal].
+    destruct f as [|c f].
+    + (* an empty bare cell: only after a comma *)
+      destruct Hst as [(-> & -> & [Ha|[Ha|Ha]])|(-> & ->)].
+      * subst alone. discriminate.
+      * discriminate.
+      * contradiction.
+      * exists (mkRd StartField fs []). split; [constructor; reflexivity|reflexivity].
+    + exists (mkRd InField fs (rev (c :: f))). split; [constructor; discriminate|].
+      cbn [forallb] in Hp. apply andb_prop in Hp. destruct Hp as [Hc Hp].
+      cbn [app]. rewrite eolize_plain by assumption.
+      rewrite fieldstart_char by assumption.
+      cbn [length] in Hlen.
+      rewrite bare_body by (assumption || (unfold fits; cbn [length]; lia)).
+      cbn [rev]. reflexivity.
+Qed.
+
+(* ---- what may follow a cell *)
+
+Lemma after_comma f fs s acc rest :
+  after_cell f fs s ->
+  csv_run s acc (eolize false true (COMMA :: rest))
+  = csv_run (mkRd StartField (f :: fs) []) acc (eolize false true rest).
+Proof.
+  intros H. rewrite eolize_cons. change (COMMA =? LF) with false. change (COMMA =? CR) with false.
+  cbn [andb app]. rewrite csv_run_cons.
+  destruct H as [Hne| |He]; unfold feed1, csv_step, start_field, save_field; cbn [rd_state rd_field rd_fields bind];
+    change (is_nl COMMA) with false; change (COMMA =? QUOTE) with false; change (COMMA =? COMMA) with true;
+    cbv iota; cbn [bind rd_state]; rewrite ?rev_involutive; try subst f; reflexivity.
+Qed.
+
+Lemma after_lf f fs s acc rest :
+  after_cell f fs s ->
+  csv_run s acc (eolize false true (LF :: rest))
+  = csv_run rd0 (rev (f :: fs) :: acc) (eolize false false rest).
+Proof.
+  intros H. rewrite eolize_cons. change (LF =? LF) with true. cbn [andb negb app]. cbv iota.
+  rewrite csv_run_cons.
+  destruct H as [Hne| |He]; unfold feed1, csv_step, start_field, save_field; cbn [rd_state rd_field rd_fields bind];
+    change (is_nl LF) with true; change (LF =? QUOTE) with false; change (LF =? COMMA) with false;
+    cbv iota; cbn [bind rd_state]; rewrite ?rev_involutive; try subst f;
+    rewrite csv_run_cons; reflexivity.
+Qed.
+
+Lemma after_crlf f fs s acc rest :
+  after_cell f fs s ->
+  csv_run s acc (eolize false true (CR :: LF :: rest))
+  = csv_run rd0 (rev (f :: fs) :: acc) (eolize false false rest).
+Proof.
+  intros H. rewrite eolize_cons. change (CR =? LF) with false. change (CR =? CR) with true.
+  cbn [andb negb app]. cbv iota. rewrite eolize_cons. change (LF =? LF) with true. cbn [andb negb app]. cbv iota.
+  rewrite csv_run_cons.
+  destruct H as [Hne| |He]; unfold feed1, csv_step, start_field, save_field; cbn [rd_state rd_field rd_fields bind];
+    change (is_nl CR) with true; change (CR =? QUOTE) with false; change (CR =? COMMA) with false;
+    cbv iota; cbn [bind rd_state]; rewrite ?rev_involutive; try subst f;
+    rewrite csv_run_cons; unfold feed1, csv_step; cbn [rd_state bind]; change (is_nl LF) with true; cbv iota; cbn [bind rd_state];
+    rewrite csv_run_cons; reflexivity.
+Qed.
+
+Lemma after_end f fs s acc :
+  after_cell f fs s ->
+  csv_run s acc (eolize false true []) = Ok (rev (rev (f :: fs) :: acc)).
+Proof.
+  intros H. cbn [eolize orb]. rewrite csv_run_cons.
+  destruct H as [Hne| |He]; unfold feed1, csv_step, start_field, save_field; cbn [rd_state rd_field rd_fields bind];
+    rewrite ?rev_involutive; try subst f; reflexivity.
+Qed.
+
+(* ---- the cells of a row *)
+
+Lemma start_comma acc r :
+  csv_run (mkRd StartRecord [] []) acc (eolize false false (COMMA :: r))
+  = csv_run (mkRd StartField [[]] []) acc (eolize false true r).
+Proof.
+  rewrite eolize_cons. change (COMMA =? LF) with false. change (COMMA =? CR) with false.
+  cbn [andb app]. rewrite csv_run_cons. reflexivity.
+Qed.
+
+Lemma write_cells_cons2 c c2 r : write_cells (c :: c2 :: r) = write_cell c ++ COMMA :: write_cells (c2 :: r).
+Proof. reflexivity. Qed.
+
+Lemma read_cells : forall cs st fs mid acc term K,
+  cs <> [] ->
+  ((st = StartRecord /\ mid = false /\ fs = [] /\ cells_ok cs = true) \/
+   (st = StartField /\ mid = true /\ forallb (cell_ok false) cs = true)) ->
+  (forall s f fs', after_cell f fs' s -> csv_run s acc (eolize false true term) = K (f :: fs')) ->
+  csv_run (mkRd st fs []) acc (eolize false mid (write_cells cs ++ term))
+  = K (rev (map w_text cs) ++ fs).
+Proof.
+  induction cs as [|c cs IH]; intros st fs mid acc term K Hne Hst HK; [contradiction|].
+  destruct cs as [|c2 r].
+  - (* the last cell of the row *)
+    cbn [write_cells map rev app].
+    assert (Hc : exists alone, cell_ok alone c = true /\
+               ((st = StartRecord /\ mid = false /\ (alone = true \/ w_quoted c = true \/ w_text c <> [])) \/
+                (st = StartField /\ mid = true))).
+    { destruct Hst as [(-> & -> & -> & H)|(-> & -> & H)].
+      - exists true. cbn [cells_ok] in H. split; [assumption|]. left. auto.
+      - exists false. cbn [forallb] in H. apply andb_prop in H. destruct H as [H _].
+        split; [assumption|]. right. auto. }
+    destruct Hc as (alone & Hok & Hs).
+    destruct (read_cell c alone st fs acc mid term Hok Hs) as (s & Ha & ->).
+    apply HK. exact Ha.
+  - (* a cell followed by a comma *)
+    rewrite write_cells_cons2, <- List.app_assoc. cbn [app].
+    assert (Hall : forallb (cell_ok false) (c :: c2 :: r) = true).
+    { destruct Hst as [(_ & _ & _ & H)|(_ & _ & H)]; exact H. }
+    cbn [forallb] in Hall. apply andb_prop in Hall. destruct Hall as [Hc Hrest].
+    assert (Hgoal : forall fs1, fs1 = w_text c :: fs ->
+              csv_run (mkRd StartField fs1 []) acc (eolize false true (write_cells (c2 :: r) ++ term))
+              = K (rev (map w_text (c :: c2 :: r)) ++ fs)).
+    { intros fs1 ->. rewrite (IH StartField (w_text c :: fs) true acc term K); [| discriminate | right; auto | exact HK].
+      f_equal. cbn [map rev]. rewrite <- !List.app_assoc. reflexivity. }
+    destruct (w_quoted c) eqn:Eq; [|destruct (w_text c) as [|x t] eqn:Et].
+    + (* quoted *)
+      assert (Hs : (st = StartRecord /\ mid = false /\ (false = true \/ w_quoted c = true \/ w_text c <> [])) \/
+                   (st = StartField /\ mid = true)).
+      { destruct Hst as [(-> & -> & _)|(-> & -> & _)]; [left|right]; auto. }
+      destruct (read_cell c false st fs acc mid (COMMA :: write_cells (c2 :: r) ++ term) Hc Hs) as (s & Ha & ->).
+      rewrite (after_comma _ _ _ _ _ Ha). apply Hgoal. reflexivity.
+    + (* bare and empty: the comma comes at once *)
+      assert (Hw : write_cell c = []) by (unfold write_cell; rewrite Eq, Et; reflexivity).
+      rewrite Hw. cbn [app].
+      destruct Hst as [(-> & -> & -> & _)|(-> & -> & _)].
+      * rewrite start_comma. apply Hgoal. reflexivity.
+      * rewrite (after_comma [] fs (mkRd StartField fs []) acc _ (AfterEmpty [] fs eq_refl)).
+        apply Hgoal. reflexivity.
+    + assert (Hs : (st = StartRecord /\ mid = false /\ (false = true \/ w_quoted c = true \/ w_text c <> [])) \/
+                   (st = StartField /\ mid = true)).
+      { destruct Hst as [(-> & -> & _)|(-> & -> & _)]; [left|right]; auto.
+        split; [reflexivity|]. split; [reflexivity|]. right. right. rewrite Et. discriminate. }
+      destruct (read_cell c false st fs acc mid (COMMA :: write_cells (c2 :: r) ++ term) Hc Hs) as (s & Ha & ->).
+      rewrite Et in Ha. rewrite (after_comma _ _ _ _ _ Ha). apply Hgoal. try rewrite Et. reflexivity.
+Qed.
+
+(* ---- rows, files *)
+
+Lemma read_blank_row crlf acc rest :
+  csv_run rd0 acc (eolize false false (write_eol crlf ++ rest))
+  = csv_run rd0 ([] :: acc) (eolize false false rest).
+Proof.
+  destruct crlf; cbn [write_eol app].
+  - rewrite eolize_cons. change (CR =? LF) with false. change (CR =? CR) with true.
+    cbn [andb app]. cbv iota. rewrite eolize_cons. change (LF =? LF) with true. cbn [andb negb app]. cbv iota.
+    rewrite !csv_run_cons. reflexivity.
+  - rewrite eolize_cons. change (LF =? LF) with true. cbn [andb negb app]. cbv iota.
+    rewrite !csv_run_cons. reflexivity.
+Qed.
+
+Lemma read_row r acc rest :
+  row_ok r = true ->
+  csv_run rd0 acc (eolize false false (write_cells (w_cells r) ++ write_eol (w_crlf r) ++ rest))
+  = csv_run rd0 (row_texts (w_cells r) :: acc) (eolize false false rest).
+Proof.
+  intros Hok. unfold row_ok in Hok. destruct r as [cs crlf]. cbn [w_cells w_crlf] in *.
+  destruct cs as [|c cs].
+  - cbn [write_cells app row_texts map]. apply read_blank_row.
+  - unfold rd0.
+    rewrite (read_cells (c :: cs) StartRecord [] false acc (write_eol crlf ++ rest)
+               (fun fields => csv_run rd0 (rev fields :: acc) (eolize false false rest))).
+    + rewrite app_nil_r, rev_involutive. reflexivity.
+    + discriminate.
+    + left. auto.
+    + intros s f fs' Ha. destruct crlf; cbn [write_eol app].
+      * apply after_crlf. exact Ha.
+      * apply after_lf. exact Ha.
+Qed.
+
+Lemma read_rows : forall rows acc tail,
+  forallb row_ok rows = true ->
+  csv_run rd0 acc (eolize false false (write_rows rows ++ tail))
+  = csv_run rd0 (rev (map (fun r => row_texts (w_cells r)) rows) ++ acc) (eolize false false tail).
+Proof.
+  induction rows as [|r rows IH]; intros acc tail Hok; cbn [write_rows map rev]; [reflexivity|].
+  cbn [forallb] in Hok. apply andb_prop in Hok. destruct Hok as [Hr Hrows].
+  rewrite <- !List.app_assoc. rewrite read_row by assumption.
+  rewrite IH by assumption. reflexivity.
+Qed.
+
+Lemma strip_bom_file bom body : bom_ok bom body = true ->
+  strip_bom ((if bom then [BOMC] else []) ++ body) = body.
+Proof.
+  unfold bom_ok. destruct bom; cbn [orb app]; [reflexivity|].
+  destruct body as [|c r]; [reflexivity|]. cbn [strip_bom]. intros H.
+  apply negb_true_iff in H. rewrite H. reflexivity.
+Qed.
+
+(* C17, reading a CSV file: whatever rows are written — any number of cells (none: a blank line),
+   any characters in a cell (commas, quotes, CR, LF, U+FEFF, ...) provided a cell that needs quotes has
+   them, each row ended by LF or CRLF, the last row possibly without terminator, with or without a
+   byte order mark — csv.reader over the file opened the way Snowfakery opens it returns exactly
+   those rows, cell for cell *)
+Theorem csv_roundtrip bom rows last :
+  forallb row_ok rows = true ->
+  match last with Some cs => cs <> [] /\ cells_ok cs = true | None => True end ->
+  bom_ok bom (write_rows rows ++ match last with Some cs => write_cells cs | None => [] end) = true ->
+  csv_rows (write_file bom rows last)
+  = Ok (map (fun r => row_texts (w_cells r)) rows ++
+        match last with Some cs => [row_texts cs] | None => [] end).
+Proof.
+  intros Hrows Hlast Hbom. unfold csv_rows, write_file.
+  rewrite (strip_bom_file _ _ Hbom). rewrite read_rows by assumption.
+  rewrite app_nil_r.
+  destruct last as [cs|].
+  - destruct Hlast as [Hne Hok]. unfold rd0.
+    rewrite <- (app_nil_r (write_cells cs)).
+    rewrite (read_cells cs StartRecord [] false _ []
+               (fun fields => Ok (rev (rev fields :: rev (map (fun r => row_texts (w_cells r)) rows))))).
+    + rewrite app_nil_r, rev_involutive. cbn [rev]. rewrite rev_involutive. reflexivity.
+    + assumption.
+    + left. auto.
+    + intros s f fs' Ha. apply after_end. exact Ha.
+  - cbn [eolize orb csv_run rd0 rd_field rd_state]. rewrite rev_involutive, app_nil_r. reflexivity.
+Qed.
+
+(* ... and DictReader: with a header row of h names and every other row blank or of at most h
+   cells, the records are the non-blank rows, in order, filled up with None *)
+Lemma all_ok_map_ok {A B} (f : A -> B) (l : list A) : all_ok (map (fun x => Ok (f x)) l) = Ok (map f l).
+Proof. induction l as [|x l IH]; cbn [map all_ok]; [reflexivity|]. rewrite IH. reflexivity. Qed.
+
+Definition pad_row (n : nat) (r : list (list Z)) : rec := map Some r ++ repeat None (n - length r).
+
+Theorem csv_records_roundtrip bom header rows last :
+  forallb row_ok (header :: rows) = true ->
+  match last with Some cs => cs <> [] /\ cells_ok cs = true | None => True end ->
+  bom_ok bom (write_rows (header :: rows) ++ match last with Some cs => write_cells cs | None => [] end) = true ->
+  let body := map (fun r => row_texts (w_cells r)) rows ++
+              match last with Some cs => [row_texts cs] | None => [] end in
+  Forall (fun r => (length r <= length (w_cells header))%nat) body ->
+  csv_records (write_file bom (header :: rows) last)
+  = Ok (Some (row_texts (w_cells header)),
+        map (pad_row (length (w_cells header))) (filter (fun r => negb (is_blank r)) body)).
+Proof.
+  intros Hrows Hlast Hbom body Hshort. unfold csv_records.
+  rewrite (csv_roundtrip bom (header :: rows) last Hrows Hlast Hbom). cbn [bind map app dict_reader].
+  fold body.
+  assert (Hl : length (row_texts (w_cells header)) = length (w_cells header)) by (unfold row_texts; apply map_length).
+  rewrite Hl.
+  assert (Hm : map (dict_record (length (w_cells header))) (filter (fun r => negb (is_blank r)) body)
+             = map (fun r => Ok (pad_row (length (w_cells header)) r)) (filter (fun r => negb (is_blank r)) body)).
+  { apply map_ext_in. intros r Hin. apply filter_In in Hin. destruct Hin as [Hin _].
+    rewrite Forall_forall in Hshort. specialize (Hshort r Hin). unfold dict_record.
+    destruct (Nat.ltb (length (w_cells header)) (length r)) eqn:E; [apply Nat.ltb_lt in E; lia|reflexivity]. }
+  rewrite Hm, all_ok_map_ok. reflexivity.
+Qed.
